@@ -21,6 +21,7 @@
 //   VF_MODE    0 static chunking, 1 adaptive (kAuto), 2 explicit chunk size
 //   VF_WAIT    0/1 fixed, 2 symbolic
 //   VF_DEPTH   bound on simultaneously in-flight body invocations
+//   VF_SPK     the first VF_SPK body invocations of every task (and of the caller) have a scheduling point
 //   VF_GHI     largest granularity
 //   VF_MINITEMS_HI largest minItemsPerChunk
 //   VF_PRE     largest number of elements already in the states container
@@ -74,6 +75,9 @@
 #ifndef VF_START
 #define VF_START 0
 #endif
+#ifndef VF_SPK
+#define VF_SPK 2
+#endif
 
 typedef int32_t IntT;
 
@@ -120,6 +124,7 @@ static uint32_t g_maxInflight; // peak of g_inflight
 static uint32_t g_calls;       // body invocations started
 static bool g_inTask;          // innermost frame of control is a stored closure (else: the caller itself)
 static bool g_callerInLoop;    // the calling thread is inside a body invocation of its own
+static uint32_t g_frameCalls;  // body invocations started by the current task / by the caller so far
 static bool g_depthCut;        // a scheduling point was reached with VF_DEPTH invocations in flight
 
 // ------------------------------------------------------------------------------------------------
@@ -155,9 +160,12 @@ struct MockTaskSet {
     --self->npending;
     ++self->running;
     bool saved = g_inTask;
+    uint32_t savedCalls = g_frameCalls;
     g_inTask = true;
+    g_frameCalls = 0;
     (*f)();
     g_inTask = saved;
+    g_frameCalls = savedCalls;
     --self->running;
     delete f;
   }
@@ -176,7 +184,8 @@ struct MockTaskSet {
 
   // scheduling point: zero or more queued closures are started (and run to completion) now
   void runSome() {
-    for (uint32_t i = 0; i < kMax; ++i) {
+    // at most kMax - running closures can still be queued (running is a constant on every path)
+    for (uint32_t i = 0; i + running < kMax; ++i) {
       if (!npending || !threadAvailable() || !vf_nondet_bool()) {
         break;
       }
@@ -234,6 +243,7 @@ struct VfInvocation {
   VfInvocation() {
     vf_check(!g_done, "no body invocation after the wait returned");
     ++g_calls;
+    ++g_frameCalls;
     ++g_inflight;
     if (g_inflight > g_maxInflight) {
       g_maxInflight = g_inflight;
@@ -243,8 +253,11 @@ struct VfInvocation {
       g_callerInLoop = true;
     }
   }
+  // Only the first VF_SPK body invocations of a task (or of the caller) contain a scheduling point.
   void schedulingPoint() {
-    g_ts->maybeRunOthers();
+    if (g_frameCalls <= VF_SPK) {
+      g_ts->maybeRunOthers();
+    }
   }
   ~VfInvocation() {
     if (iAmCaller) {
